@@ -188,6 +188,14 @@ func (p *WorkerPool) Stop() {
 	// Wait for all workers to finish
 	p.wg.Wait()
 
+	// Tasks still queued were never executed: tell their submitters so
+	// (a closed result channel makes SubmitWait report failure).
+	for task := range p.taskQueue {
+		if task.ResultChan != nil {
+			close(task.ResultChan)
+		}
+	}
+
 	p.logger.logger.Printf("Worker pool stopped")
 }
 
@@ -266,7 +274,7 @@ func (p *WorkerPool) Resize(maxWorkers int) {
 			default:
 				// Queue full, notify caller of failure
 				if task.ResultChan != nil {
-					task.ResultChan <- nil
+					close(task.ResultChan)
 				}
 			}
 		}
@@ -274,7 +282,7 @@ func (p *WorkerPool) Resize(maxWorkers int) {
 		// Pool wasn't running, notify callers of dropped tasks
 		for _, task := range pendingTasks {
 			if task.ResultChan != nil {
-				task.ResultChan <- nil
+				close(task.ResultChan)
 			}
 		}
 	}
